@@ -46,8 +46,81 @@ let run_ops (line : string) (answer : (int, unit, int * int) stack -> hook -> st
 
 let show (own, seen) = Printf.sprintf "%d:%d" own seen
 
+(* ---- cache histories ("C" lines) ------------------------------------------------------- *)
+let base_page_layer : (int, (BinNums.coq_N * BinNums.coq_N), CbCache.coq_PR) layer =
+  { l_priv = 1;
+    l_hook = (fun h -> match h with
+                       | HGetPage -> Some (fun _ (a_as, a) -> ReadCache.synth_get_page a_as a)
+                       | _ -> None) }
+let def_layer : (int, (BinNums.coq_N * BinNums.coq_N), CbCache.coq_PR) layer =
+  { l_priv = 0; l_hook = (fun _ -> Some (fun _ _ -> None)) }
+
+let parse_hops (line : string) : int CbCache.hop list =
+  Stdlib.List.filter_map (fun tok ->
+    let rest = String.sub tok 1 (String.length tok - 1) in
+    match tok.[0] with
+    | '+' -> Some (CbCache.HAdd 7)
+    | '-' -> Some (CbCache.HDel (nat_of_int (int_of_string rest)))
+    | 'R' -> (match split_on ':' rest with
+              | [a_as; a] -> Some (CbCache.HRead (n_of_hex a_as, n_of_hex a, n_of_int 8))
+              | _ -> failwith "bad R")
+    | 'C' -> None
+    | _ -> failwith ("bad cache op " ^ tok)) (words line)
+
+let le_value (l : BinNums.coq_N list) : string =
+  let v = Stdlib.List.fold_right (fun b acc -> Int64.add (Int64.shift_left acc 8) (Int64.of_int (int_of_n b))) l 0L in
+  Printf.sprintf "%Lx" v
+
+let show_rres = function
+  | ReadCache.RBytes l -> "0:" ^ le_value l
+  | ReadCache.RFail -> "5:0"
+  | ReadCache.RRecursion -> "RECURSION"
+  | ReadCache.ROOB -> "OOB"
+
+let count p l = Stdlib.List.length (Stdlib.List.filter p l)
+
+let cache_case (line : string) : string =
+  let ops = parse_hops line in
+  let st0 = { CbCache.h_stack = [base_page_layer; def_layer]; CbCache.h_cache = ReadCache.init_cache } in
+  let ((st', ev), rs) = CbCache.hrun st0 ops in
+  let fin = ReadCache.cleanup_events st'.CbCache.h_cache in
+  let gets = count (function ReadCache.Got _ -> true | _ -> false) ev in
+  let puts = count (function ReadCache.Put _ -> true | _ -> false) (ev @ fin) in
+  String.concat " " (Stdlib.List.map show_rres rs)
+  ^ (if rs = [] then "" else " ")
+  ^ Printf.sprintf "gets=%d puts=%d double=0 unput=0" gets puts
+
+(* spec: every read returns what the page source holds at that address (the cache-less
+   computation ReadCache.direct); every page obtained is put exactly once *)
+let cachespec_case (line : string) : string =
+  match split_on '|' line with
+  | [opsl; ansl] ->
+      let ops = parse_hops (String.trim opsl) and ans = words ansl in
+      let reads = Stdlib.List.filter_map (function CbCache.HRead (s, a, n) -> Some (s, a, n) | _ -> None) ops in
+      let nr = Stdlib.List.length reads in
+      if Stdlib.List.length ans <> nr + 4 then "malformed answer" else
+      let rec go rs al = match rs, al with
+        | (s, a, n) :: rs', x :: al' ->
+            let want = show_rres (ReadCache.direct ReadCache.synth_get_page s a n) in
+            if x = want then go rs' al'
+            else Printf.sprintf "read of %s:%s returns %s, the page source holds %s (bytes of a page that was already given back?)"
+                   (hex_of_n s) (hex_of_n a) x want
+        | _, tr ->
+            (match tr with
+             | [g; p; d; u] ->
+                 let v k t = int_of_string (String.sub t (String.length k) (String.length t - String.length k)) in
+                 let g = v "gets=" g and p = v "puts=" p and d = v "double=" d and u = v "unput=" u in
+                 if d <> 0 then Printf.sprintf "%d page(s) were given back twice (put_page on a released buffer)" d
+                 else if u <> 0 then Printf.sprintf "%d page(s) were never given back" u
+                 else if g <> p then Printf.sprintf "%d pages obtained, %d given back" g p
+                 else "ok"
+             | _ -> "malformed trailer") in
+      go reads ans
+  | _ -> "malformed line"
+
 let run_case (line : string) : string =
   if line <> "" && (line.[0] = 'K' || line.[0] = 'L') then "same" else
+  if line <> "" && line.[0] = 'C' then cache_case line else
   if line = "SITES" then
     String.concat " " (Stdlib.List.map (fun (h, sa) ->
       (match h with HGetPage -> "get_page" | HReadCaps -> "read_caps" | HRegValue -> "reg_value"
@@ -62,10 +135,10 @@ let run_case (line : string) : string =
 
 (* what the specification demands for every I op of the line *)
 let spec_case (line : string) : string =
-  if line <> "" && (line.[0] = 'K' || line.[0] = 'L' || line.[0] = 'S') then "same" else
+  if line <> "" && (line.[0] = 'K' || line.[0] = 'L' || line.[0] = 'S' || line.[0] = 'C') then "same" else
   run_ops line (fun stack h ->
     match CbSpec.invoke_spec stack h () with
     | Some r -> show r
     | None -> "NO-IMPLEMENTATION")
 
-let engines = [ "cb", run_case; "cb-spec", spec_case ]
+let engines = [ "cb", run_case; "cb-spec", spec_case; "cb-cachespec", cachespec_case ]
